@@ -10,22 +10,32 @@ prop = Prop(
     level="exploration",
     technique="Hypothesis PBT: the schedule/notify histories of C10 driven to completion on the real DefaultScheduler; the reserved "
               "totals (hardware_locations) are compared with zero cores/memory and with the independently computed measured "
-              "usage of the released jobs' directories whenever no job is fireable or running",
+              "usage of the released jobs' directories whenever no job is fireable or running; bounded-exhaustive 2-job subspace",
     rule=(
-        "same history domain as C10 (see vf/sched_model.py), every history drained in a drawn order with duplicated and "
-        "out-of-order notifications; directory usage answered by the instrumented connector from a per-directory table "
-        "(multiples of 128 KiB), one tier on local locations with real directories. Non-trivial = >= 2 jobs granted, >= 1 "
-        "duplicate notification, >= 1 job released from FIREABLE without running, and >= 1 quiescent point with no "
-        "fireable/running job at which the totals were compared (all measured); distinct by the whole case."
+        "histories: the domain of C10 (vf/sched_model.py), every history drained in a drawn order with duplicated and "
+        "out-of-order notifications; directory usage is answered by the instrumented connector from a per-directory table "
+        "(multiples of 128 KiB, at most the requested size). local-dirs: the same histories on non-stacked deployments whose "
+        "locations are local, with real directories (sparse files) measured by the unmodified local branch of "
+        "get_storage_usages. Non-trivial (histories) = >= 2 requests granted, >= 1 duplicate notification, >= 1 job released "
+        "from FIREABLE without running, and >= 1 quiescent point without fireable/running job at which the totals were "
+        "compared; (local-dirs) = >= 2 grants, >= 1 released job with non-zero measured usage, >= 1 such comparison; "
+        "(exhaustive-2jobs, see C10) = a comparison happened after a duplicate or a release from FIREABLE. All measured; "
+        "distinct by the whole case."
     ),
-    level_text="Random search; oracle = exact equality (dyadic values) of the reserved totals with an independent model at every idle quiescent point, non-negativity at every quiescent point.",
-    level_note="Each allocation attempt has its own directories, so 'measured usage' is unambiguous; interleavings are delays at connector calls.",
-    assumptions=["notification histories follow the callers' protocol (DESIGN R1c)", "values are multiples of 1/8 (exact float arithmetic)"],
+    level_text="Random search plus a small exhaustive subspace; oracle = exact equality (dyadic values, 1e-9 relative tolerance "
+               "on the MiB conversion) of the reserved totals with an independent model at every idle quiescent point, "
+               "non-negativity at every quiescent point.",
+    level_note="Each allocation attempt has its own directories, so 'measured usage' is unambiguous; interleavings are delays at "
+               "connector calls. Known findings (stacked deployments only): requirement multiplied on a shared inner location, "
+               "release on the wrong inner mount point when a bind contains an inner mount point, inner storage never released "
+               "for multi-location jobs.",
+    assumptions=["notification histories follow the callers' protocol (DESIGN R1c)", "values are multiples of 1/8 (exact float arithmetic)",
+                 "jobs use at most the storage they requested"],
 )
 prop.engine = "detloop"
 
 
-@prop.given("histories", sm.history_case(), quick=3000, thorough=100000)
+@prop.given("histories", sm.history_case(), quick=4000, thorough=150000)
 async def check_histories(case, rec):
     h = await sm.run_history(case, "C11")
     classify(h, rec, "C11")
